@@ -681,7 +681,33 @@ func c03Pack(c *ctx, dir string) {
 			for _, k := range ks {
 				for _, row := range []bool{false, true} {
 					if row && k < len(appended) {
-						continue // the row is written after the data is synced
+						// the row is written after the data is synced: this code's own crashes cannot leave it without the
+						// data.  A disk that lied about the sync (or a pack restored from a truncated copy) can: the duplicate
+						// rule of ReceiveBlob exists for that state - the next upload of the blob must heal it.
+						if k < hdr || wasAcked || k%3 != 0 {
+							continue
+						}
+						crashRoot := filepath.Join(dir, fmt.Sprintf("dplost-%d-%d", h, k))
+						copyDir(root, crashRoot)
+						os.WriteFile(filepath.Join(crashRoot, "pack-00000.blobs"), append(append([]byte{}, pack0...), appended[:k]...), 0o600)
+						if s2, err := d.open(crashRoot, c03kvFrom(kv1)); err == nil {
+							_, rerr := s2.ReceiveBlob(context.Background(), b.ref, bytes.NewReader(b.content))
+							closeStorage(s2)
+							if rerr == nil {
+								c03mu.Lock()
+								kv2 := c03kvs[d.kvName].snapshot()
+								c03mu.Unlock()
+								ops2 := append(append([]string{}, d.ops...), fmt.Sprintf("DLostTail %d %d%%nat %d%%nat", b.id, len(b.content), k-hdr), fmt.Sprintf("DReceive %d %d%%nat", b.id, len(b.content)))
+								human2 := append(append([]string{}, d.human...), fmt.Sprintf("the pack lost its tail inside blob #%d (%d of %d body bytes left) although its index row is there; restart; receive #%d again", b.id, k-hdr, len(b.content), b.id))
+								mh2 := map[int]bool{b.id: true}
+								for id := range mustHave {
+									mh2[id] = true
+								}
+								d.observe(crashRoot, kv2, ops2, human2, mh2, "lost tail under an index row, then the upload again")
+							}
+						}
+						os.RemoveAll(crashRoot)
+						continue
 					}
 					if len(appended) == 0 && (k > 0 || row) {
 						continue
